@@ -4,6 +4,7 @@ import (
 	"context"
 	"fmt"
 	"os"
+	"sort"
 	"strconv"
 	"time"
 
@@ -76,6 +77,10 @@ func (lh *LocationHelper) permanodeLocation(ctx context.Context,
 		if err != nil {
 			return camtypes.Location{}, err
 		}
+		// The rows are ordered by the text of the claim date, which is not
+		// chronological when dates have fractional seconds
+		// ("...:03.5Z" < "...:03Z"), and permAttr folds claims in slice order.
+		sort.Sort(camtypes.ClaimsByDate(claims))
 		pa.claims = claimSlice(claims)
 	}
 
